@@ -459,8 +459,21 @@ func (fr *Frame) applyContract(ct *Contract, sig *types.Signature, invoke bool, 
 	if res.Len() > 0 {
 		extra["result"] = rv[0]
 	}
-	// 4. postconditions
+	// 4. postconditions (a clause tagged opt:<name> is revealed only to callers whose own contract says
+	// "opt <name>=on": detailed functional clauses that most callers do not need stay out of their context)
 	for _, cl := range ct.Ensures {
+		hidden := false
+		for _, tg := range cl.Tags {
+			if strings.HasPrefix(tg, "opt:") {
+				top := fx.E.S.C[fx.topKey]
+				if top == nil || top.Opts[strings.TrimPrefix(tg, "opt:")] != "on" {
+					hidden = true
+				}
+			}
+		}
+		if hidden {
+			continue
+		}
 		t := evalIn(cl, pre, st, extra)
 		fx.assert(implies(cond, t))
 	}
@@ -520,7 +533,8 @@ func (fr *Frame) havocMod(m string, pt map[string]types.Type, vars map[string]Va
 		pointHavoc(bigvalComp, ev.one(ev.eval(ex), "bigval"))
 		return
 	case strings.HasPrefix(m, "elems("):
-		e := strings.TrimSuffix(strings.TrimPrefix(m, "elems("), ")")
+		m0, lo, hi, ranged := splitElemsRange(m)
+		e := strings.TrimSuffix(strings.TrimPrefix(m0, "elems("), ")")
 		ev := &Env{fx: fx, vars: vars, pre: pre, post: pre, cur: pre}
 		ex, err := parseSpecExpr(e)
 		if err != nil {
@@ -530,6 +544,19 @@ func (fr *Frame) havocMod(m string, pt map[string]types.Type, vars map[string]Va
 		sl := v.T.Underlying().(*types.Slice)
 		for _, k := range fr.elemComps(sl.Elem()) {
 			pointHavoc(k, v.L[0])
+			if ranged && v.Mut {
+				// only the bytes lo <= j < hi of the buffer change: the rest of the array is kept (stated on the
+				// array itself, so that it matches the terms stores and loads produce)
+				lox, e1 := parseSpecExpr(lo)
+				hix, e2 := parseSpecExpr(hi)
+				if e1 != nil || e2 != nil {
+					specFail("modifies %s: bad range", m)
+				}
+				lt, ht := ev.one(ev.eval(lox), "range"), ev.one(ev.eval(hix), "range")
+				q := fx.freshName("q")
+				na, oa := sel(st.get(fx, k), v.L[0]), sel(pre.get(fx, k), v.L[0])
+				fx.assert(fmt.Sprintf("(forall ((%s Int)) (! (=> (or (< %s (+ %s %s)) (>= %s (+ %s %s))) (= (select %s %s) (select %s %s))) :pattern ((select %s %s))))", q, q, v.L[1], lt, q, v.L[1], ht, na, q, oa, q, na, q))
+			}
 		}
 		return
 	case strings.HasPrefix(m, "map("):
@@ -777,4 +804,31 @@ func inRepo(f *ssa.Function) bool {
 		return strings.HasPrefix(f.Object().Pkg().Path(), modPath)
 	}
 	return p != nil && strings.HasPrefix(p.Pkg.Path(), modPath)
+}
+
+// splitElemsRange: "elems(e)[lo:hi]" -> ("elems(e)", "lo", "hi", true); anything else unchanged
+func splitElemsRange(m string) (string, string, string, bool) {
+	if !strings.HasPrefix(m, "elems(") || !strings.HasSuffix(m, "]") {
+		return m, "", "", false
+	}
+	i := strings.LastIndex(m, ")[")
+	if i < 0 {
+		return m, "", "", false
+	}
+	rng := m[i+2 : len(m)-1]
+	// split at the top-level colon
+	depth := 0
+	for k := 0; k < len(rng); k++ {
+		switch rng[k] {
+		case '(', '[':
+			depth++
+		case ')', ']':
+			depth--
+		case ':':
+			if depth == 0 {
+				return m[:i+1], strings.TrimSpace(rng[:k]), strings.TrimSpace(rng[k+1:]), true
+			}
+		}
+	}
+	return m, "", "", false
 }
